@@ -558,19 +558,4 @@ multi_block!(#[kani::stub(<Rc2 as BlockCipherDecBackend>::decrypt_block, uf_bloc
 multi_block!(#[kani::stub(<Rc2 as BlockCipherDecBackend>::decrypt_block, uf_block)] #[kani::unwind(66)]
     m_rc2_dec_blocks_3, 3, any_rc2(), snap, eq64, BlockCipherDecrypt, decrypt_block, decrypt_blocks, decrypt_blocks_b2b);
 
-// TEMP-EXPERIMENT-BEGIN
-#[kani::proof]
-#[kani::unwind(130)]
-fn t_exp_real8() {
-    let k: [u8; 8] = kani::any();
-    let r = Rc2::expand_key(&k[..], 64);
-    kani::cover!(r[0] == 0x1234);
-}
-#[kani::proof]
-#[kani::unwind(130)]
-fn t_exp_ref8() {
-    let k: [u8; 8] = kani::any();
-    let r = bcref::rc2::expand_key(&k[..], 64);
-    kani::cover!(r[0] == 0x1234);
-}
-// TEMP-EXPERIMENT-END
+
